@@ -9,6 +9,8 @@ from __future__ import annotations
 import collections
 import math
 
+import numpy as np
+
 from simkit import gen, scenes, world
 from simkit.core import Counter, EventLog, Outcome, Streams, SutError, Violation
 
@@ -49,6 +51,12 @@ def gen_configs(rng, box, n):
             cfg["max_dist"] = rng.choice([None, None, "inf", 0, 0.0, 1.0, 2.5, 6.0, 1000.0, -1])
         cfg["build"] = rng.choice(BUILDS)
         cfg["progress"] = rng.random() < 0.1
+        if rng.random() < 0.2:
+            # the same time course object is tracked a second time after the caller moved or
+            # replaced one of its droplets in place
+            cfg["retrack"] = {"frame": rng.randrange(64), "drop": rng.randrange(64),
+                              "shift": rng.choice([0.5, 3.0, 30.0, -7.25]),
+                              "kind": rng.choice(["move", "replace"])}
         out.append(cfg)
     return out
 
@@ -169,9 +177,33 @@ def execute(case: dict) -> Outcome:
     if any(a > 0 and b == 0 for a, b in zip(counts, counts[1:])):
         cnt.inc("probe.empty_after_nonempty")
     inter = []
+    passes = []
     for cfg in case["configs"]:
         etc = build_etc(frames, cfg.get("build", "ctor"))
         cnt.inc("build." + cfg.get("build", "ctor"))
+        passes.append((cfg, etc, overlap_free, counts))
+        if cfg.get("retrack") and any(len(e) for e in etc.emulsions):
+            passes.append((cfg, etc, None, None))  # second pass on the edited object
+    for cfg, etc, overlap_free, counts in passes:
+        if overlap_free is None:
+            # edit the live time course in place, then track it again
+            rt = cfg["retrack"]
+            nonempty = [k for k, e in enumerate(etc.emulsions) if len(e)]
+            k = nonempty[rt["frame"] % len(nonempty)]
+            em = etc.emulsions[k]
+            i = rt["drop"] % len(em)
+            pos = np.array(em[i].position, dtype=float)
+            pos[0] += rt["shift"]
+            if rt["kind"] == "move":
+                em[i].position = pos
+            else:
+                new = em[i].copy()
+                new.position = pos
+                em[i] = new
+            cnt.inc("retrack_passes")
+            spec_frames = [{"droplets": [scenes.droplet_spec(d) for d in e]} for e in etc.emulsions]
+            overlap_free = world.frames_overlap_free(spec_frames, box)
+            counts = [len(e) for e in etc.emulsions]
         fp_before = etc_fingerprint(etc)
         ftimes = [tkey(t) for t in etc.times]
         sig_cfg = {"method": cfg["method"], "grid": str(bool(cfg.get("grid")))}
@@ -290,6 +322,8 @@ def shrink(case: dict):
             yield {**case, "configs": case["configs"][:ci] + [{**c, "grid": False}] + case["configs"][ci + 1:]}
         if c.get("max_dist") is not None:
             yield {**case, "configs": case["configs"][:ci] + [{k: v for k, v in c.items() if k != "max_dist"}] + case["configs"][ci + 1:]}
+        if c.get("retrack"):
+            yield {**case, "configs": case["configs"][:ci] + [{k: v for k, v in c.items() if k != "retrack"}] + case["configs"][ci + 1:]}
         if c.get("build", "ctor") != "ctor" or c.get("progress"):
             yield {**case, "configs": case["configs"][:ci] + [{**c, "build": "ctor", "progress": False}] + case["configs"][ci + 1:]}
     if h["cls"] != "SphericalDroplet":
